@@ -273,3 +273,48 @@ def cli_goals_eval(text, goal_strs, at_n, subs=None, nmax=6):
             parsed.append({"kind": "unparsed", "raw": l[:300], "why": str(ex)[:100]})
     res["parsed"] = parsed
     return res
+
+
+def cli_multi(texts, goal_strs, at_n=-1, extra_args=None):
+    """`polar.py f1 f2 ... --goals ...` as polar.main does it: ONE action object called for every benchmark file.
+    Returns the printed lines per file."""
+    import contextlib
+    import io
+    import os
+    import re
+    import sys as _sys
+    import tempfile
+    _reset_settings()
+    from cli import ArgumentParser
+    from cli.actions import ActionFactory
+    per_file = []
+    with tempfile.TemporaryDirectory() as td:
+        paths = []
+        for i, t in enumerate(texts):
+            pth = os.path.join(td, f"prog{i}.prob")
+            with open(pth, "w") as fh:
+                fh.write(t)
+            paths.append(pth)
+        argv = paths + ["--goals"] + list(goal_strs)
+        if at_n >= 0:
+            argv += ["--at_n", str(at_n)]
+        argv += list(extra_args or [])
+        old_argv = _sys.argv
+        _sys.argv = ["polar.py"] + argv
+        try:
+            args = ArgumentParser().parse_args()
+            action = ActionFactory.create_action(args)
+            for b in args.benchmarks:
+                buf = io.StringIO()
+                err = None
+                try:
+                    with contextlib.redirect_stdout(buf):
+                        action(b)
+                except Exception as e:  # noqa
+                    err = _err(e, "cli")
+                txt = re.sub(r"\x1b\[[0-9;]*m", "", buf.getvalue())
+                per_file.append({"lines": [l for l in txt.split("\n") if l.strip()], "error": err})
+        finally:
+            _sys.argv = old_argv
+            _reset_settings()
+    return per_file
